@@ -4,7 +4,7 @@
 cd /verif
 test -z "$(git -C /repo status --porcelain)" || { echo "/repo has uncommitted changes"; exit 1; }
 rc=0
-for d in seeded/harmless/refactor_*.diff; do
+for d in ${HARMLESS_DIR:-seeded/harmless}/refactor_*.diff; do
   git -C /repo apply /verif/$d || { echo "cannot apply $d"; rc=1; continue; }
   for i in $(seq -w 1 20); do
     out=$(./check C$i 2>&1 | tail -1)
